@@ -142,7 +142,8 @@ _DATETIMES = st.datetimes(min_value=dt.datetime(1000, 1, 1), max_value=dt.dateti
     .map(lambda d: d.replace(microsecond=0))
 _TUPLE_MEMBER = st.one_of(st.text(alphabet=string.ascii_letters + string.digits + "._- ", min_size=1, max_size=5)
                           .map(lambda s: s.strip() or "t"),
-                          st.sampled_from(["a,b", "Smith, John", 'say "x"', "it's", "[x]", "a, b,c", '"', ",", "ä,ö"]),
+                          st.sampled_from(["a,b", "Smith, John", 'say "x"', "it's", "[x]", "a, b,c", '"', ",", "ä,ö",
+                                           "l1\nl2", "x\r\ny", "a\tb"]),
                           st.integers(-99, 99).map(str), st.floats(-9, 9, allow_nan=False).map(str))
 
 
